@@ -297,10 +297,20 @@ def resolve(asts, files, dirs=(), root=ROOT, want_cands=True):
     R = Resolution()
     seen = set()
 
-    def cands_for(it, F, modname, alts, chain):
+    def cands_for(it, F, modname, alts, chain, anc):
+        """Alternative candidate locations of one declaration: name / path based files under the declaring
+        file's directory, its stem and module-name directories, its parent, the current module directories,
+        and the same directories of ALL ANCESTOR declaring files (anc), each with every inline-prefix.
+        Returns the directories used, which become ancestors' directories for the loaded file."""
         D = pp.dirname(F)
         stem = pp.basename(F)[:-3]
-        bases = {D, pp.join(D, stem), pp.dirname(D)}
+        anc_dirs, anc_names = anc if anc else (frozenset(), frozenset())
+        bases = {D, pp.join(D, stem), pp.dirname(D)} | set(anc_dirs)
+        # a stale "relative" component inherited from an ancestor: <own dir>/<ancestor stem or module name>
+        for nm in anc_names:
+            bases.add(pp.join(D, nm))
+            for a in alts:
+                bases.add(pp.join(a[0], nm))
         if modname:
             bases.add(pp.join(D, modname))
         for a in alts:
@@ -311,29 +321,38 @@ def resolve(asts, files, dirs=(), root=ROOT, want_cands=True):
         for k in ("path", "cfgattr"):
             if it.get(k):
                 names.append(it[k])
+        used = set()
         for b in bases:
             for k in range(len(chain) + 1):
                 for sub in (chain[:k], chain[k:]):
-                    bb = pp.join(b, *sub) if sub else b
+                    bb = norm(pp.join(b, *sub)) if sub else norm(b) if b else b
+                    if bb.startswith("..") or bb.startswith("/"):
+                        continue
+                    used.add("" if bb == "." else bb)
                     for n in names:
                         p = norm(pp.join(bb, n))
                         if not p.startswith("..") and not p.startswith("/") and p.endswith(".rs"):
                             R.cands.add(p)
+        names_down = set(anc_names) | {stem} | set(c for c in chain if "/" not in c and c != "..")
+        if modname:
+            names_down.add(modname)
+        return (frozenset(used), frozenset(names_down))
 
-    def visit_file(path, alts, dc, modname):
-        k = (path, tuple(alts), dc)
+    def visit_file(path, alts, dc, modname, anc=None):
+        k = (path, tuple(alts), dc, anc)
         if k in seen:
             return
         seen.add(k)
         ast = asts.get(path, {"items": []})
-        walk(ast["items"], alts, dc or bool(ast.get("innerskip")), path, modname, [])
+        walk(ast["items"], alts, dc or bool(ast.get("innerskip")), path, modname, [], anc)
 
-    def walk(items, alts, dc, F, modname, chain):
+    def walk(items, alts, dc, F, modname, chain, anc):
         for it in items:
             t = it["t"]
             if t == "ext":
+                child_anc = None
                 if want_cands:
-                    cands_for(it, F, modname, alts, chain)
+                    child_anc = cands_for(it, F, modname, alts, chain, anc)
                 dcc = bool(dc or it.get("skip"))
                 r = _resolve_ext(fs, alts, it)
                 if r[0] == "err":
@@ -343,13 +362,13 @@ def resolve(asts, files, dirs=(), root=ROOT, want_cands=True):
                 else:
                     for target, calt in r[1]:
                         R.reached.setdefault(target, set()).add("dc" if dc else ("skipped" if it.get("skip") else "care"))
-                        visit_file(target, [calt], dcc, it["name"])
+                        visit_file(target, [calt], dcc, it["name"], child_anc)
             elif t == "inline":
                 comp = it["path"] if it.get("path") else it["name"]
-                walk(it["items"], [_enter_inline(a, it) for a in alts], dc or it.get("skip"), F, modname, chain + [comp])
+                walk(it["items"], [_enter_inline(a, it) for a in alts], dc or it.get("skip"), F, modname, chain + [comp], anc)
             else:
                 for br in it["branches"]:
-                    walk(br, alts, dc, F, modname, chain)
+                    walk(br, alts, dc, F, modname, chain, anc)
 
     d = pp.dirname(root)
     stem = pp.basename(root)[:-3]
